@@ -10,6 +10,7 @@ import (
 	"io"
 	"log"
 	"math/rand"
+	"net"
 	"net/http"
 	"net/http/httptest"
 	"os"
@@ -793,6 +794,13 @@ func runTLS(c *harness.Ctx, free bool) harness.Result {
 	srcs := []string{insecure, secure}
 	if r.Intn(2) == 0 {
 		srcs = []string{secure, insecure}
+	}
+	// ... and a source on the same machine whose port nobody listens on (connection refused)
+	dead := ""
+	if ln, err := net.Listen("tcp", "127.0.0.1:0"); err == nil {
+		dead = "http://" + ln.Addr().String() + "/pprof/heap"
+		ln.Close()
+		srcs = append([]string{dead}, srcs...)
 	}
 	desc := fmt.Sprintf("sources %v, the https+insecure one answered first: %v", []string{"https+insecure://A", "https://B (self-signed)"}, insecureFirst)
 	res := harness.Result{NonTrivial: true, Sig: fmt.Sprint("tls", c.Index), Sample: map[string]any{"run": desc}}
